@@ -68,7 +68,7 @@ CaseOf(e, sn) ==
         \* the order in which the operands of one operator are evaluated is unspecified: when a variable that holds
         \* garbage is read in an expression that also assigns, "before / after the first fault" is not determined
         unord == \E n \in {"x", "y"} : st[n].kind = "bad" /\ Count(Reads(e), n) > 0 /\ Writes(e) # <<>>
-    IN  [min |-> Text(e, FALSE), full |-> Text(e, TRUE), store |-> sn, undef |-> c.u \/ g.u \/ unord, exp |-> Proj(c), eager |-> Proj(g)]
+    IN  [min |-> Text(e, FALSE), full |-> Text(e, TRUE), tight |-> Tight(Text(e, FALSE)), store |-> sn, undef |-> c.u \/ g.u \/ unord, exp |-> Proj(c), eager |-> Proj(g)]
 
 Emit == k > Len(Trees) \/ \A i \in 1..Len(StoreNames) : PrintT(<<"CASE", ToJson(CaseOf(Trees[k], StoreNames[i]))>>)
 =============================================================================
